@@ -45,6 +45,13 @@ Theorem C17_fresh : forall (handler : Type) (rt : routes handler) m p h,
   rt_table (fst (add_route handler rt m p h)) = rt_table rt ++ [(route_key m (rt_prefix rt ++ p), h)].
 Proof. exact add_route_fresh. Qed.
 
+(* non-interference: registering (or not) a handler for a different (method, prefix+path), anywhere in the
+   registration order, never changes which handler answers a given (method, path) *)
+Theorem C17_other_registrations_irrelevant : forall (handler : Type) m full prefix (pre : list (reg handler)) m' p' h' post,
+  ~ (m' = m /\ prefix ++ p' = full) ->
+  first_match handler m full prefix (pre ++ (m', p', h') :: post) = first_match handler m full prefix (pre ++ post).
+Proof. exact first_match_other_irrelevant. Qed.
+
 Example C17_ex : 
   let rt := register_all nat (routes_new nat (B"id") (B"/api")) [(Get, B"/a", 1%nat); (Put, B"/a", 2%nat); (Get, B"/a", 3%nat)] in
   fst (handle_http_request nat (fun _ _ => response_new Http11 OK) rt
@@ -58,3 +65,4 @@ Print Assumptions C17_no_match_no_registration.
 Print Assumptions C17_stamped.
 Print Assumptions C17_duplicate.
 Print Assumptions C17_fresh.
+Print Assumptions C17_other_registrations_irrelevant.
